@@ -436,6 +436,13 @@ func prepareCalls(r *rng, k int) []prepared {
 		case 0, 1, 2:
 			o := randOpts(r)
 			c := genApplyCase(r, cfgFor(r), o, r.n(3), r.n(3), 5)
+			// escaped reference tokens (~0, ~1) in many of the concurrently applied patches: token
+			// decoding is shared code
+			if r.chance(1, 2) && len(c.doc) > 0 && c.doc[0] == '{' {
+				v := jnum("1")
+				c.ops = append([]opSpec{{op: "add", path: "/m~0n~1k", value: v}, {op: "test", path: "/m~0n~1k", value: v}}, c.ops...)
+				c.patch = spell{1, r}.patchText(c.ops)
+			}
 			if r.chance(1, 6) {
 				c.patch = corrupt(r, c.patch)
 			}
